@@ -1,21 +1,21 @@
 from props import Prop, Stream, reg
 
 reg(Prop('C08', [
-    Stream('c08.rng', 30000, 600000, 'spec'),
-    Stream('c08.rngm', 30000, 600000, 'model'),
-    Stream('c08.rngb', 30000, 600000, 'model',
+    Stream('c08.rng', 30000, 300000, 'spec'),
+    Stream('c08.rngm', 30000, 300000, 'model'),
+    Stream('c08.rngb', 30000, 300000, 'model',
            exhaustive='address size 1, v5 and v4: every section of <= 2 bytes; opcode 0..9 followed by every string of length 2..4 over {00,01,02,7f,80,fd,fe,ff}'),
-    Stream('c08.loc', 30000, 600000, 'spec'),
-    Stream('c08.locm', 30000, 600000, 'model'),
-    Stream('c08.locb', 30000, 600000, 'model',
+    Stream('c08.loc', 30000, 300000, 'spec'),
+    Stream('c08.locm', 30000, 300000, 'model'),
+    Stream('c08.locb', 30000, 300000, 'model',
            exhaustive='same domain as c08.rngb x {v5, v4 pairs, v4 GNU split-DWARF}'),
-    Stream('c08.rraw', 20000, 400000, 'spec'),
-    Stream('c08.lraw', 20000, 400000, 'spec'),
-    Stream('c08.rawm', 30000, 600000, 'model'),
-    Stream('c08.tbl', 30000, 600000, 'model',
+    Stream('c08.rraw', 20000, 200000, 'spec'),
+    Stream('c08.lraw', 20000, 200000, 'spec'),
+    Stream('c08.rawm', 30000, 300000, 'model'),
+    Stream('c08.tbl', 30000, 300000, 'model',
            exhaustive='get_address for every address size 0..255 x 10 index/base points x both byte orders'),
-    Stream('c08.die', 20000, 600000, 'model'),
-    Stream('c08.aoff', 20000, 400000, 'model'),
+    Stream('c08.die', 20000, 300000, 'model'),
+    Stream('c08.aoff', 20000, 200000, 'model'),
 ], clauses=[
     'nonempty_below_tombstone_{ranges,locations,next}: for ANY section bytes, offset, base, address table, version, address size and build mode, every range yielded by RngListIter / LocListIter has begin < end and begin < min_tombstone(address_size); tombstone_threshold: that value is 2^(8*size)-2 for sizes 1,2,4,8',
     'raw_roundtrip_{ranges,locations}: raw iteration over the encoding of any well-formed entry list (DW_RLE_*, DW_LLE_*, pre-v5 pairs, GNU v4 split-DWARF layout; any prefix, any trailing bytes) returns exactly those entries',
